@@ -86,7 +86,14 @@ def novelty_guard(model, ctx):
     new_names = {n for n in new_names if not (n.startswith("__") and n.endswith("__"))}
     moved, keep = [], []
     drift_cache = {}
+    try:
+        known_keys = {k["key"] for k in load_known_findings().get("findings", []) if k.get("property") == ctx.prop}
+    except Exception:
+        known_keys = set()
     for v in ctx.violations:
+        if f"{v['rule']}|{v['construct']}" in known_keys:
+            keep.append(v)          # a recorded finding stays a recorded finding, however its surroundings are rewritten
+            continue
         rel, _, line = v["where"].partition(":")
         hit = None
         # rewritten anchor: the file the construct lives in differs from the source the rules were written against in more
